@@ -115,6 +115,7 @@ type world struct {
 	got     map[string]string
 	visited []kv
 	entered int
+	failSet int               // != 0: the setting handler returns fiber.NewError(failSet) after setting the cookies
 	bind    bool              // also record the cookie binder's view (it iterates VisitAllCookie)
 	bound   map[string]string // Bind().Cookie(&map[string]string)
 }
@@ -136,6 +137,10 @@ func newApp(key string, except []string, withMW bool, w *world) *fiber.App {
 			for _, s := range w.toSet {
 				c.Cookie(&fiber.Cookie{Name: s.Name, Value: s.Value, Path: s.Path, HTTPOnly: s.HTTPOnly,
 					Secure: s.Secure, SameSite: s.SameSite, MaxAge: s.MaxAge})
+			}
+			if w.failSet != 0 {
+				// cookies set before a handler fails still leave the server: they must be encrypted too
+				return fiber.NewError(w.failSet, "failed after setting cookies")
 			}
 			return c.SendString("set")
 		}
@@ -336,6 +341,11 @@ func script(e *ev.Env, c *ev.Case, keyRaw []byte, key string, except []string, c
 		return out
 	}
 	w.toSet = mkSet(cookies)
+	if c.R.Chance(1, 4) {
+		w.failSet = []int{401, 500, 404}[c.R.Intn(3)]
+		wb.failSet = w.failSet
+		stat(e, "issue_by_failing_handler", 1)
+	}
 	// the twin without the middleware only sets the excepted cookies (the others may be binary,
 	// which without encryption is not a parseable response at all)
 	for i, si := range w.toSet {
@@ -914,6 +924,12 @@ func multi(e *ev.Env, c *ev.Case, fixed []string) {
 			case n == names[3]:
 				v := genExceptValue(r)
 				list = append(list, sent{n, v, "excepted", v})
+			case r.Chance(1, 5):
+				// authentic ciphertext (sealed under the current key, as the exported EncryptCookie
+				// would) of a plaintext that cookie parsing would mangle if it were ever re-parsed
+				pv := gen.Pick(r, []string{" padded ", "a;b", "x; admin=1", "\"quoted\"", " lead", "trail ", "k=v; Path=/"})
+				list = append(list, sent{n, seal(g.keyRaw, r.Bytes(12), []byte(pv)), "authentic", pv})
+				stat(e, "multi_authentic_fragile_plaintext", 1)
 			case r.Chance(3, 5):
 				k := r.Intn(2)
 				list = append(list, sent{n, ctx[n][k], "authentic", plain[n][k]})
